@@ -1,10 +1,11 @@
 #!/bin/bash
 # Builds every check once (warms /verif/.gocache) from files on disk only.
 set -u
-cd /verif
+cd "$(dirname "$(readlink -f "$0")")"
+export VERIF_ROOT="$(pwd)"
 export GOFLAGS=-mod=mod GOPROXY=off GOSUMDB=off GOTOOLCHAIN=local GOCACHE=/verif/.gocache CGO_ENABLED=0
 mkdir -p .work/bin evidence replays
-cp /repo/go.sum /verif/go.sum 2>/dev/null || true
+cp /repo/go.sum ./go.sum 2>/dev/null || true
 rc=0
 for d in checks/*/; do
   n=$(basename "$d")
